@@ -66,11 +66,11 @@ CLAIMED = {
    text="Items with any subset of ts/serde keys (valid, malformed, unknown, duplicated, misplaced) at container/variant/field level over all shapes, generics forms and unusual identifiers are expanded in-process under catch_unwind, with and without serde-compat: no panic; every documented incompatibility present in the ts-spelled (or cleanly serde-spelled) attributes is rejected; a lone unknown ts key is named.",
    note="The rejection table is Appendix D of DESIGN.md (read off the TS trait docs and assert_validity); field/variant rejections are only expected where the derive processes that field/variant. Compiled half: TS-only generated modules (rich generics, optional, flatten, inline, unusual identifiers) are built against /repo; a module rustc rejects although the in-process derive accepts every item (or with an error code about the TS trait) is a violation, and `#[ts(optional)]` on a non-Option field must fail to compile.",
    ref="DESIGN.md §4 C16"),
- "C08": dict(engine="E4 purefn", technique="exhaustive small-scope enumeration + proptest generation of path pairs against a lexical reference resolver (differential oracle)",
+ "C08": dict(engine="E4 purefn", technique="exhaustive small-scope enumeration + proptest generation + libFuzzer (cargo-fuzz) of path pairs against a lexical reference resolver (differential oracle)",
    text="Every pair (importing file, dependency file) over the stated component alphabet is enumerated exhaustively up to directory depth 2 (quick) / 3 (thorough) under 5 base spellings, with and without import-esm, plus proptest-generated odd/long components; each specifier produced by the real import_path (through the cfg(ts_rs_verif) hook) is resolved by an independent lexical resolver and must denote the dependency's file. Exploration level: exhaustive within the bound, sampled beyond it.",
    note="Trusts oracles::paths (60 lines, unit-tested) as the reading of TypeScript's relative-specifier resolution; POSIX only. The hook re-exports the private functions unchanged.",
    ref="DESIGN.md §4 C08"),
- "C05": dict(engine="E4 purefn (text level) + E3 histories", technique="proptest-generated sets of declarations folded through merge() in all permutations/prefixes against a reference file combiner (model-based oracle)",
+ "C05": dict(engine="E4 purefn (text level) + E3 histories", technique="proptest-generated sets of declarations folded through merge() in all permutations/prefixes, and a libFuzzer target over the same structure, against a reference file combiner (model-based oracle)",
    text="Text level: generated sets of standalone texts are merged in every permutation (<=4 elements, 30/120 for 5) and every prefix through the real merge(); the result must be byte-identical to an independently written combiner that takes texts apart with swc spans. File level: generated universes of compiled types sharing files are exported one type at a time in generated permutations (tree == combiner after every step, re-export idempotent) and from 2-8 threads under generated delay tapes at the yield points inside export_and_merge (final tree == combiner).",
    note="Reference combiner orders declarations by the declaration head token (identifier incl. generic parameter list), the reading under which the current tree is right for `Foo<T>` vs `Foo2`. Three genuine defects of the text-splitting merge are listed in known_findings.json and excluded by construction from the search.",
    ref="DESIGN.md §4 C05"),
